@@ -96,13 +96,38 @@ def run_backend(pid, art, index, args, backend, workdir, maxsteps, nblocks, time
             continue
         for a in al:
             cases.append((nm, a))
-    env, n = refine.make_inputs(art, os.path.join(workdir, "tlc-" + backend), backend, cases, maxsteps=maxsteps,
-                                nblocks=nblocks, footprint_k=footprint_k)
-    cfgp = env["SCCV_CFG"]
-    cfg = json.load(open(cfgp))
-    cfg["strict_encode"] = strict
-    json.dump(cfg, open(cfgp, "w"))
-    r = tlc_batch("Refine", "Refine.cfg", os.path.join(workdir, "tlc-" + backend), env, n, timeout=timeout)
+    # TLC reads the whole batch as one constant: keep every chunk's program file below ~35 MB
+    chunks, cur, size = [], [], 0
+    byprog = collections.OrderedDict()
+    for nm, a in cases:
+        byprog.setdefault(nm, []).append(a)
+    for nm, al in byprog.items():
+        sz = os.path.getsize(os.path.join(art, "%s.%s.asm" % (nm, backend))) * 4 + os.path.getsize(os.path.join(art, nm + ".axcutlin.json"))
+        if cur and size + sz > 35_000_000:
+            chunks.append(cur)
+            cur, size = [], 0
+        cur += [(nm, a) for a in al]
+        size += sz
+    if cur:
+        chunks.append(cur)
+    merged = None
+    for ci, chunk in enumerate(chunks):
+        wd = os.path.join(workdir, "tlc-%s-%d" % (backend, ci))
+        env, n = refine.make_inputs(art, wd, backend, chunk, maxsteps=maxsteps, nblocks=nblocks, footprint_k=footprint_k)
+        cfgp = env["SCCV_CFG"]
+        cfg = json.load(open(cfgp))
+        cfg["strict_encode"] = strict
+        json.dump(cfg, open(cfgp, "w"))
+        r = tlc_batch("Refine", "Refine.cfg", wd, env, n, timeout=timeout, xmx="12g")
+        for f in glob.glob(os.path.join(wd, "*.progs.json")):
+            os.remove(f)
+        if merged is None:
+            merged = r
+        else:
+            merged["results"] += r["results"]
+            for k_ in ("states", "distinct", "wall"):
+                merged[k_] += r[k_]
+    r = merged if merged is not None else {"results": [], "states": 0, "distinct": 0, "wall": 0}
     return r, cases, skipped
 
 
